@@ -65,6 +65,16 @@ def sign (S : SigScheme) (H : Bytes → Bytes) (k : S.SK) (id : Bytes) (ch : Chu
     let sig := S.sign k toSign
     Soc.toChunk H { id := id, owner := owner, sig := sig, chunk := ch }
 
+/-- `recoverAddress(signature, digest)`: the owner address recovered from the signature.  Recovery
+    bytes above 30 (btcec's "compressed key" variants 31..34 of 27..30, which recover the same key)
+    are rejected — the `fix:` of C05. -/
+def recoverAddress (S : SigScheme) (sig digest : Bytes) : Option Bytes :=
+  if sig.length = sigSize ∧ (sig.getD (sigSize - 1) 0).toNat > 30 then none
+  else
+    match S.recover sig digest with
+    | none => none
+    | some pk => some (S.ethAddr pk)
+
 /-- `soc.FromChunk(sch)` on the chunk's data -/
 def fromChunk (S : SigScheme) (H : Bytes → Bytes) (seg d : Nat) (stale : Bytes) (data : Bytes) : Option Soc :=
   if data.length < minChunkSize then none
@@ -75,10 +85,9 @@ def fromChunk (S : SigScheme) (H : Bytes → Bytes) (seg d : Nat) (stale : Bytes
     | .error _ => none
     | .ok ch =>
       let toSign := H (id ++ ch.addr)
-      match S.recover sig toSign with
+      match recoverAddress S sig toSign with
       | none => none
-      | some pk =>
-        let owner := S.ethAddr pk
+      | some owner =>
         if owner.length ≠ addressSize then none
         else some { id := id, owner := owner, sig := sig, chunk := ch }
 
